@@ -191,6 +191,12 @@ func guardServe() {
 			s = newState()
 			fmt.Fprint(w, "R ok\n")
 			w.Flush()
+		} else if strings.HasPrefix(line, "DFS ") {
+			// dry run of one exhaustive case's whole trie
+			ws := strings.Fields(line)
+			exhWalk(nil, atoi(ws[1]), []int{atoi(ws[2]), atoi(ws[3])}, 0, false)
+			fmt.Fprint(w, "R ok\n")
+			w.Flush()
 		} else if strings.HasPrefix(line, "BATCH\t") {
 			// a whole fixed history on a fresh state; only success matters to the caller
 			b := newState()
@@ -636,63 +642,130 @@ func listCase(c *hx.Ctx) {
 	r.finish()
 }
 
-// exhaustiveCase decodes the case number into one history over keys 0..3: a starting list (empty,
-// {1}, {0,1,2}), one iterator, then exhLen symbols of the alphabet ins 0..3, del 0..3, next, adv 1,
-// adv 3 (11 symbols). The thorough tier enumerates all of them (3 * 11^exhLen cases).
-const exhLen = 5
+// Exhaustive part of the thorough tier: every history of exhLen symbols over the alphabet
+// ins 0..3, del 0..3, next, adv 1, adv 3 (11 symbols) from three starting lists (empty, {1}, {0,1,2})
+// with one open iterator. One case = one (starting list, first two symbols); below that the histories
+// are written as a trie (`@d op`, see the driver), so every prefix is executed, dumped and judged
+// once: 3 * (11^3 + ... + 11^exhLen) lines instead of 3 * exhLen * 11^exhLen.
+const exhLen = 6
+const exhSyms = 11
 
-func exhCount() int {
-	n := 3
-	for i := 0; i < exhLen; i++ {
-		n *= 11
+func exhCount() int { return 3 * exhSyms * exhSyms }
+
+func symText(sym, pos int) string {
+	switch {
+	case sym < 4:
+		return fmt.Sprintf("ins %d %d", sym, 4+pos) // payload = position in the history
+	case sym < 8:
+		return fmt.Sprintf("del %d", sym-4)
+	case sym == 8:
+		return "next 0"
+	case sym == 9:
+		return "adv 0 1"
 	}
-	return n
+	return "adv 0 3"
+}
+
+// applySym performs a symbol without rendering an answer.
+func (s *state) applySym(sym, pos int) {
+	switch {
+	case sym < 4:
+		s.t.Insert(sym, 4+pos)
+	case sym < 8:
+		s.t.Delete(sym - 4)
+	case sym == 8:
+		s.iters[0].Next()
+	case sym == 9:
+		s.iters[0].Advance(1)
+	default:
+		s.iters[0].Advance(3)
+	}
+}
+
+func exhStartOps(start int) []string {
+	switch start {
+	case 1:
+		return []string{"ins 1 1", "begin"}
+	case 2:
+		return []string{"ins 1 1", "ins 2 2", "ins 0 3", "begin"}
+	}
+	return []string{"begin"}
+}
+
+// exhRebuild returns a fresh state after the starting list and the symbols of path.
+func exhRebuild(start int, path []int) *state {
+	s := newState()
+	switch start {
+	case 1:
+		s.t.Insert(1, 1)
+	case 2:
+		s.t.Insert(1, 1)
+		s.t.Insert(2, 2)
+		s.t.Insert(0, 3)
+	}
+	s.iters = append(s.iters, s.t.Begin())
+	for pos, sym := range path {
+		s.applySym(sym, pos)
+	}
+	return s
+}
+
+func damaged(ans string) bool {
+	return ans == "panic" || ans == "hang" || strings.Contains(ans, "par=0") || strings.Contains(ans, "ok=0")
+}
+
+// exhWalk enumerates the trie below path. emit == nil: only execute (the guard's dry run).
+// perNode: ask the guard about every single node first (after its dry run of the whole subtree failed).
+func exhWalk(c *hx.Ctx, start int, path []int, d int, perNode bool) {
+	pos := len(path)
+	for sym := 0; sym < exhSyms; sym++ {
+		op := symText(sym, pos)
+		if perNode {
+			if guard.crashes >= maxCrashes {
+				return
+			}
+			ops := exhStartOps(start)
+			for p, s := range path {
+				ops = append(ops, symText(s, p))
+			}
+			if ans := guard.call("BATCH\t" + strings.Join(append(ops, op), "\t")); ans != "ok" {
+				guard.crashes++
+				c.Note("guard:" + ans)
+				c.Op(fmt.Sprintf("@%d %s", d, op), ans)
+				continue
+			}
+		}
+		st := exhRebuild(start, path)
+		ans := st.exec(op)
+		if c != nil {
+			c.Op(fmt.Sprintf("@%d %s", d, op), ans)
+			c.Note("op:" + strings.Fields(op)[0])
+		}
+		if pos+1 < exhLen && !damaged(ans) {
+			exhWalk(c, start, append(path, sym), d+1, perNode)
+		}
+	}
 }
 
 func exhaustiveCase(c *hx.Ctx, no int) {
-	r := newRunNoReset(c)
+	start, s1, s2 := no%3, (no/3)%exhSyms, no/3/exhSyms
 	c.Note("mode:exhaustive")
-	var ops []string
-	gen := 0
-	ins := func(k int) { gen++; ops = append(ops, fmt.Sprintf("ins %d %d", k, gen)) }
-	switch no % 3 { // three starting lists: empty, one value, three values
-	case 1:
-		ins(1)
-	case 2:
-		ins(1)
-		ins(2)
-		ins(0)
+	r := newRun(c)
+	for _, op := range exhStartOps(start) {
+		r.do(op)
 	}
-	no /= 3
-	ops = append(ops, "begin")
-	for i := 0; i < exhLen; i++ {
-		sym := no % 11
-		no /= 11
-		switch {
-		case sym < 4:
-			ins(sym)
-		case sym < 8:
-			ops = append(ops, fmt.Sprintf("del %d", sym-4))
-		case sym == 8:
-			ops = append(ops, "next 0")
-		case sym == 9:
-			ops = append(ops, "adv 0 1")
-		default:
-			ops = append(ops, "adv 0 3")
-		}
+	r.do(symText(s1, 0))
+	r.do(symText(s2, 1))
+	if r.dead {
+		return
 	}
-	// the history is fixed in advance: let the guard run all of it in one request; only if that
-	// fails is it replayed op by op (to find the op that crashes or hangs)
-	guarded := true
-	if guard.crashes < maxCrashes && guard.call("BATCH\t"+strings.Join(ops, "\t")+"\tdrain") == "ok" {
-		guarded = false
-	} else if guard.crashes < maxCrashes {
-		guard.call("RESET")
+	perNode := false
+	if ans := guard.call(fmt.Sprintf("DFS %d %d %d", start, s1, s2)); ans != "ok" {
+		c.Note("guard:subtree-" + ans)
+		perNode = true
 	}
-	for _, op := range ops {
-		r.doWith(op, guarded)
-	}
-	r.finishWith(guarded)
+	exhWalk(c, start, []int{s1, s2}, 0, perNode)
+	c.NonTrivial()
 }
 
 func tok(n int) string { return fmt.Sprintf("t%02d", n) }
@@ -826,7 +899,7 @@ func main() {
 	defer guard.stop()
 	hx.Main(hx.Family{
 		Name:     "c07",
-		Rule:     "edit histories (insert / delete / re-insert, payload = a per-case counter) on a real treeList over key spaces 4..32 (thorough: ..64) with up to 8 open iterators (a finished one is usually replaced by a new one) stepped by Next/Advance between the edits; 10 shapes: general mix, monotone build + deletes from the ends, full tree + mostly inner deletions, iterator chasing (delete / re-insert exactly the key under the iterator, empty the list under it), tiny lists emptied and refilled, grow-shrink-grow; one case in five is a TreeIndex history (Add/Remove with 1..3 tokens, iterators from Begin(token)); thorough also enumerates every history of length 5 over {ins 0..3, del 0..3, next, adv 1, adv 3} from three starting lists with one open iterator. non-trivial = the history deletes a node with two children or calls an iterator standing on a deleted node; distinct = by hash of the op text",
+		Rule:     "edit histories (insert / delete / re-insert, payload = a per-case counter) on a real treeList over key spaces 4..32 (thorough: ..64) with up to 8 open iterators (a finished one is usually replaced by a new one) stepped by Next/Advance between the edits; 10 shapes: general mix, monotone build + deletes from the ends, full tree + mostly inner deletions, iterator chasing (delete / re-insert exactly the key under the iterator, empty the list under it), tiny lists emptied and refilled, grow-shrink-grow; one case in five is a TreeIndex history (Add/Remove with 1..3 tokens, iterators from Begin(token)); thorough also enumerates, as a trie, every history of length <= 6 over {ins 0..3, del 0..3, next, adv 1, adv 3} from three starting lists with one open iterator. non-trivial = the history deletes a node with two children or calls an iterator standing on a deleted node; distinct = by hash of the op text",
 		Quick:    2500,
 		Thorough: exhCount() + 8000,
 		Corpus:   corpus,
